@@ -8,11 +8,12 @@ package main
 // missing and the rules that need it report undecided.
 
 import (
-	"fmt"
 	"encoding/json"
+	"fmt"
 	"go/constant"
 	"os"
 	"sort"
+	"strings"
 
 	"golang.org/x/tools/go/ssa"
 )
@@ -93,11 +94,35 @@ func dumpRoles(p *Prog, path string) error {
 		}
 		out[fn.Name()] = roleFingerprint{Sig: typesOnly(fn.Signature.String()), Features: computeFeatures(p, fn, func(string) bool { return true })}
 	}
+	// methods present on this tree (so that a later function->method conversion can be told from an old method)
+	for _, fn := range p.Fns {
+		if fn.Parent() == nil && fn.Pkg == p.Ergo && fn.Signature.Recv() != nil && fn.Synthetic == "" {
+			out["method:"+p.Name(fn)] = roleFingerprint{Sig: flatSig(fn)}
+		}
+	}
 	data, err := json.MarshalIndent(out, "", " ")
 	if err != nil {
 		return err
 	}
 	return os.WriteFile(path, data, 0o644)
+}
+
+// flatSig: types-only signature with a method's receiver as first parameter.
+func flatSig(fn *ssa.Function) string {
+	sig := typesOnly(fn.Signature.String())
+	if r := fn.Signature.Recv(); r != nil {
+		rt := r.Type().String()
+		if strings.HasPrefix(sig, "func()") {
+			return "func(" + rt + ")" + sig[len("func()"):]
+		}
+		return "func(" + rt + "," + sig[len("func("):]
+	}
+	return sig
+}
+
+// methodKnown: the method is listed in the recorded fingerprints' method set (methods present on the fingerprinted tree).
+func (p *Prog) methodKnown(fn *ssa.Function) bool {
+	return p.knownMethods[p.Name(fn)]
 }
 
 func jaccard(a, b []string) float64 {
@@ -129,10 +154,25 @@ func resolveRenamedRoles(p *Prog, rolesPath string) []string {
 	if json.Unmarshal(data, &roles) != nil {
 		return nil
 	}
+	p.knownMethods = map[string]bool{}
+	for k := range roles {
+		if strings.HasPrefix(k, "method:") {
+			p.knownMethods[strings.TrimPrefix(k, "method:")] = true
+			delete(roles, k)
+		}
+	}
 	// unclaimed candidates: package-level functions whose own name is not a recorded role
 	var cands []*ssa.Function
 	for _, fn := range p.Fns {
-		if fn.Parent() != nil || fn.Pkg != p.Ergo || fn.Signature.Recv() != nil {
+		if fn.Parent() != nil || fn.Pkg != p.Ergo || fn.Synthetic != "" {
+			continue
+		}
+		if fn.Signature.Recv() != nil {
+			// a function turned into a method of the type it works on is still a candidate, unless the method existed before
+			if p.methodKnown(fn) {
+				continue
+			}
+			cands = append(cands, fn)
 			continue
 		}
 		if _, known := roles[fn.Name()]; !known {
@@ -162,8 +202,10 @@ func resolveRenamedRoles(p *Prog, rolesPath string) []string {
 				continue
 			}
 			s := jaccard(fp.Features, computeFeatures(p, fn, isRole))
-			if typesOnly(fn.Signature.String()) == fp.Sig {
+			if flatSig(fn) == fp.Sig {
 				s += 0.2
+			} else if s < 0.7 {
+				continue // a different signature needs a much closer body
 			}
 			if s > bestS {
 				best, secondS, bestS = fn, bestS, s
@@ -183,4 +225,3 @@ func resolveRenamedRoles(p *Prog, rolesPath string) []string {
 	}
 	return notes
 }
-
